@@ -751,6 +751,7 @@ package s3db
 //@ spec vacRoot(name string) int = *tables[name].Tree.Root.crdt.Mast
 
 //@ func Vacuum
+//@   option seqtree
 //@   requires ctx != nil && absOK(ns(beforeTime))
 //@   requires imp(has(tables, tableName) && tables[tableName] != nil, vtOK(tables[tableName]))
 //@   requires forall i int :: imp(has(tables, tableName) && tables[tableName] != nil, vacShape(vacRoot(tableName), i))
